@@ -178,15 +178,17 @@ def defocus_2d_offcentre(size, param):
 
 
 def custom_psf_1d(size, k=0):
-    """Deterministic asymmetric 1-D PSF (dyadic entries, positive, unit sum is *not* required for a custom PSF)."""
+    """Deterministic asymmetric 1-D PSF (dyadic entries, some NEGATIVE weights, unit sum is *not* required for a custom PSF)."""
     base = [1, 5, 2, 7, 3, 1, 4, 2, 6, 1, 3, 5, 2, 4, 1, 7, 2, 3]
     w = np.array([base[(i * 3 + 2 * k) % len(base)] + 0.5 * i for i in range(size)], float)
+    w[1::3] *= -0.5          # a ringing kernel: custom PSFs may have negative weights
     return w / 32.0
 
 
 def custom_psf_2d(size, k=0):
     w = np.array([[((3 * i + 5 * j + i * j + 2 * k) % 7) + 0.5 * i + 0.25 * j + (1.0 if (i, j) == (0, 1) else 0.0)
                    for j in range(size)] for i in range(size)], float)
+    w[::2, 1::2] *= -0.5     # negative weights as well
     return w / 64.0
 
 
